@@ -4161,3 +4161,215 @@ func E11HyphenGuard(c *core.Ctx, r *core.Report) {
 	r.Count("E11.hyphen-sites", n)
 	r.Floor("E11.hyphen-sites", 2)
 }
+
+// E11RotationMerge: Decompose merges its two rotations only when the scaling between them commutes with a rotation.
+func E11RotationMerge(c *core.Ctx, r *core.Report) {
+	r.Rule("E11.rotation-merge", "Matrix.Decompose returns (tx, ty, φ, sx, sy, θ) for Translate·Rotate(φ)·Scale(sx,sy)·Rotate(θ). A branch that folds one rotation into the other (adds one returned angle to the other and zeroes it) is sound only if Scale(sx,sy) commutes with rotations, i.e. sx = sy including the sign. Its guard must imply that: both scales compared (Equal or ==) with the same constant, compared with each other, or — for scales defined as A+B and A−B — B compared with zero. A guard on |sx| = |sy| (IsSimilarity, IsRigid) also admits reflections, for which the merged decomposition denotes a different matrix, and ToSVG then prints a transform list that is not the matrix")
+	p := c.MustPkg("")
+	info := p.TypesInfo
+	fd := core.MustFuncDecl(p, "Matrix.Decompose")
+	r.Func("canvas.Matrix.Decompose")
+	// results by position
+	var ret *ast.ReturnStmt
+	ast.Inspect(fd.Body, func(m ast.Node) bool {
+		if rs, ok := m.(*ast.ReturnStmt); ok && len(rs.Results) == 6 {
+			ret = rs
+		}
+		return true
+	})
+	if ret == nil {
+		r.Fail("E11.rotation-merge", "canvas.Matrix.Decompose|six results", c.Pos(fd.Pos()), "no return statement with six results")
+		return
+	}
+	objOf := func(e ast.Expr) types.Object {
+		if id, ok := core.Unparen(e).(*ast.Ident); ok {
+			return core.ObjOf(info, id)
+		}
+		return nil
+	}
+	rotA, sx, sy, rotB := objOf(ret.Results[2]), objOf(ret.Results[3]), objOf(ret.Results[4]), objOf(ret.Results[5])
+	if rotA == nil || rotB == nil || sx == nil || sy == nil {
+		r.OK("E11.rotation-merge", "canvas.Matrix.Decompose|rotations merged only under equal scales", c.Pos(ret.Pos()), "results are not plain variables; no merging branch can be identified")
+		return
+	}
+	// sx, sy := A+B, A-B ?
+	var diffHalf string
+	ast.Inspect(fd.Body, func(m ast.Node) bool {
+		as, ok := m.(*ast.AssignStmt)
+		if !ok || len(as.Lhs) != 2 || len(as.Rhs) != 2 || objOf(as.Lhs[0]) != sx || objOf(as.Lhs[1]) != sy {
+			return true
+		}
+		a, ok1 := core.Unparen(as.Rhs[0]).(*ast.BinaryExpr)
+		b, ok2 := core.Unparen(as.Rhs[1]).(*ast.BinaryExpr)
+		if ok1 && ok2 && a.Op == token.ADD && b.Op == token.SUB && types.ExprString(a.X) == types.ExprString(b.X) && types.ExprString(a.Y) == types.ExprString(b.Y) {
+			diffHalf = types.ExprString(a.Y)
+		}
+		return true
+	})
+	impliesEqual := func(cond ast.Expr) bool {
+		// conjuncts
+		var conj []ast.Expr
+		var split func(e ast.Expr)
+		split = func(e ast.Expr) {
+			e = core.Unparen(e)
+			if be, ok := e.(*ast.BinaryExpr); ok && be.Op == token.LAND {
+				split(be.X)
+				split(be.Y)
+				return
+			}
+			conj = append(conj, e)
+		}
+		split(cond)
+		eqConst := map[types.Object]string{}
+		for _, e := range conj {
+			var x, y ast.Expr
+			if call, ok := e.(*ast.CallExpr); ok && len(call.Args) == 2 {
+				if f := core.CalleeOf(info, call); f != nil && f.Name() == "Equal" {
+					x, y = call.Args[0], call.Args[1]
+				}
+			} else if be, ok := e.(*ast.BinaryExpr); ok && be.Op == token.EQL {
+				x, y = be.X, be.Y
+			}
+			if x == nil {
+				continue
+			}
+			ox, oy := objOf(x), objOf(y)
+			if (ox == sx && oy == sy) || (ox == sy && oy == sx) {
+				return true
+			}
+			if diffHalf != "" {
+				for i, s := range []ast.Expr{x, y} {
+					o := []ast.Expr{y, x}[i]
+					if types.ExprString(core.Unparen(s)) == diffHalf {
+						if f, ok := constantFloat(core.ConstVal(info, o)); ok && f == 0 {
+							return true
+						}
+					}
+				}
+			}
+			for i, o := range []types.Object{ox, oy} {
+				other := []ast.Expr{y, x}[i]
+				if (o == sx || o == sy) && core.ConstVal(info, other) != nil {
+					eqConst[o] = core.ConstVal(info, other).ExactString()
+				}
+			}
+		}
+		a, okA := eqConst[sx]
+		b, okB := eqConst[sy]
+		return okA && okB && a == b
+	}
+	n := 0
+	ast.Inspect(fd.Body, func(m ast.Node) bool {
+		is, ok := m.(*ast.IfStmt)
+		if !ok {
+			return true
+		}
+		// merging branch: one rotation is assigned 0 and the other is += it
+		zeroed, added := false, false
+		for _, st := range is.Body.List {
+			as, ok := st.(*ast.AssignStmt)
+			if !ok || len(as.Lhs) != 1 || len(as.Rhs) != 1 {
+				continue
+			}
+			l := objOf(as.Lhs[0])
+			if l != rotA && l != rotB {
+				continue
+			}
+			if as.Tok == token.ASSIGN {
+				if f, ok := constantFloat(core.ConstVal(info, as.Rhs[0])); ok && f == 0 {
+					zeroed = true
+				}
+			}
+			if as.Tok == token.ADD_ASSIGN {
+				if o := objOf(as.Rhs[0]); (o == rotA || o == rotB) && o != l {
+					added = true
+				}
+			}
+		}
+		if !zeroed || !added {
+			return true
+		}
+		n++
+		key := fmt.Sprintf("canvas.Matrix.Decompose|rotation-merging branch #%d is taken only when the two scales are equal", n)
+		if impliesEqual(is.Cond) {
+			r.OK("E11.rotation-merge", key, c.Pos(is.Pos()), "")
+		} else {
+			r.Fail("E11.rotation-merge", key, c.Pos(is.Pos()), "the guard `"+c.Src(is.Cond)+"` does not imply that the two returned scales are equal including their sign: for a reflection (sy = −sx) the scaling does not commute with the rotation and the merged result (φ+θ, sx, sy, 0) is a different matrix")
+		}
+		return true
+	})
+	r.Count("E11.rotation-merge-branches", n)
+	r.Floor("E11.rotation-merge-branches", 1)
+}
+
+// E11OmittedTerm: a term of Matrix.ToSVG's transform list is omitted only when what would be printed is the identity.
+func E11OmittedTerm(c *core.Ctx, r *core.Report) {
+	r.Rule("E11.omitted-term", "Matrix.ToSVG(h) writes a transform list term by term and leaves a term out when it is the identity. The guard that decides whether a term is written depends on every parameter of ToSVG that the written values depend on: `translate(tx, h−ty)` is the identity only if h−ty is zero, so a guard on the matrix's own translation alone drops the `translate(0,h)` of the y-flip for matrices without translation, and the list then denotes a different transformation than the `matrix(…)` form the same function returns for other inputs")
+	p := c.MustPkg("")
+	info := p.TypesInfo
+	fd := core.MustFuncDecl(p, "Matrix.ToSVG")
+	r.Func("canvas.Matrix.ToSVG")
+	params := map[types.Object]bool{}
+	for _, f := range fd.Type.Params.List {
+		for _, nm := range f.Names {
+			if o := info.Defs[nm]; o != nil {
+				params[o] = true
+			}
+		}
+	}
+	mentions := func(e ast.Node) map[types.Object]bool {
+		out := map[types.Object]bool{}
+		ast.Inspect(e, func(k ast.Node) bool {
+			if id, ok := k.(*ast.Ident); ok {
+				if o := core.ObjOf(info, id); o != nil && params[o] {
+					out[o] = true
+				}
+			}
+			return true
+		})
+		return out
+	}
+	n := 0
+	ast.Inspect(fd.Body, func(m ast.Node) bool {
+		is, ok := m.(*ast.IfStmt)
+		if !ok || is.Else != nil || len(is.Body.List) != 1 {
+			return true
+		}
+		es, ok := is.Body.List[0].(*ast.ExprStmt)
+		if !ok {
+			return true
+		}
+		call, ok := es.X.(*ast.CallExpr)
+		if !ok || !core.IsPkgFunc(info, call, "fmt", "Fprintf") || len(call.Args) < 3 {
+			return true
+		}
+		format := ""
+		if v := core.ConstVal(info, call.Args[1]); v != nil && v.Kind() == constant.String {
+			format = constant.StringVal(v)
+		}
+		term := strings.TrimSpace(strings.SplitN(format, "(", 2)[0])
+		n++
+		key := fmt.Sprintf("canvas.Matrix.ToSVG|term %s is omitted only when the written values are the identity", term)
+		need := map[types.Object]bool{}
+		for _, a := range call.Args[2:] {
+			for o := range mentions(a) {
+				need[o] = true
+			}
+		}
+		have := mentions(is.Cond)
+		missing := ""
+		for o := range need {
+			if !have[o] {
+				missing = o.Name()
+			}
+		}
+		if missing != "" {
+			r.Fail("E11.omitted-term", key, c.Pos(is.Pos()), fmt.Sprintf("the term `%s` is written from the parameter `%s`, but the guard `%s` that decides whether it is written does not depend on `%s`: for a matrix without translation the flip offset translate(0,%s) is dropped", term, missing, c.Src(is.Cond), missing, missing))
+		} else {
+			r.OK("E11.omitted-term", key, c.Pos(is.Pos()), "")
+		}
+		return true
+	})
+	r.Count("E11.tosvg-terms", n)
+	r.Floor("E11.tosvg-terms", 4)
+}
